@@ -41,6 +41,10 @@ def wrap_ret(pred, ret):
 
 
 def gen(rng, i, tier):
+    if rng.random() < 0.06:
+        # the solve_bruteforce method the problem classes inherit: it solves the formulation built from its own arguments
+        from props import c10
+        return {"form": "problem", "inst": c10.gen(rng, rng.choice([0, 1, 2, 4, 6]), tier), "fn": "qubo", "pred": "all", "all": True}
     c = gen_(rng, i, tier)
     c["ret"] = rng.choice(["bool", "bool", "int", "none", "npbool"])
     return c
@@ -102,6 +106,10 @@ def build(case):
 
 def run_impl(case):
     import qubovert as qv
+    if case["form"] == "problem":
+        from props import c10
+        P = c10.instance(case["inst"])
+        return {"problem": True, "checks": c10.check_bruteforce_kw(case["inst"], P), "vars": list(range(P.num_binary_variables))}
     D = build(case)
     spin = case["fn"] in ("puso", "quso")
     valid = wrap_ret(PRED[case["pred"]](spin, case["k"]), case.get("ret", "bool"))
@@ -136,6 +144,8 @@ def run_impl(case):
 
 
 def literal(case, out):
+    if out.get("problem"):
+        return None              # checked on the implementation only (the problem classes are C10's model)
     spin = case["fn"] in ("puso", "quso")
     vars_ = out["vars"]
     cin = "{| c_spin := %s; c_vars := %s; c_D := %s; c_all := %s; c_valid := %s; c_exact := %s |}" % (
@@ -159,6 +169,8 @@ def literal(case, out):
 
 def oracle(case, out):
     """the property, directly on what the implementation returned"""
+    if out.get("problem"):
+        return out["checks"]
     v = []
     spin = case["fn"] in ("puso", "quso")
     items = [(k, F(c[0], c[1])) for k, c in out["items"]]
@@ -216,6 +228,8 @@ def nontrivial(case, out):
 
 
 def tags(case, out):
+    if out.get("problem"):
+        return ["problem-class:" + case["inst"]["cls"]]
     t = ["fn:%s:%s" % (case["fn"], case["form"]), "all:%s" % case["all"], "pred:" + case["pred"],
          "objective:" + ("none" if out["obj"] is None else "value")]
     if not out["vars"]:
